@@ -254,6 +254,29 @@ def link_and_instrument(symtab, outdir, name):
     return out
 
 
+def unwindset_args(goto, rules):
+    """Per-loop bounds: `rules` = [(regex on the loop's function name / id, bound)], resolved against
+    `cbmc --show-loops` of this very binary (loop ids are mangled and build specific)."""
+    if not rules:
+        return []
+    out = subprocess.run(["cbmc", "--show-loops", goto], capture_output=True, text=True).stdout
+    sets = []
+    cur = None
+    for line in out.splitlines():
+        m = re.match(r"^Loop (\S+):$", line)
+        if m:
+            cur = m.group(1)
+            continue
+        if cur and "function" in line:
+            fn = line.split(" function ", 1)[1] if " function " in line else ""
+            for rx, bound in rules:
+                if re.search(rx, fn) or re.search(rx, cur):
+                    sets.append("%s:%d" % (cur, bound))
+                    break
+            cur = None
+    return ["--unwindset", ",".join(sets)] if sets else []
+
+
 def run_one(scratch, name, goto, unwind, timeout_s, logdir, extra_cbmc=()):
     res = HarnessResult(name)
     logp = os.path.join(logdir, name + ".log")
@@ -318,7 +341,8 @@ def run_kani(scratch, package, insts, jobs, timeout_s, small=True, extra_cfg=(),
         t = left if per_harness_timeout_s is None else min(left, per_harness_timeout_s)
         goto = link_and_instrument(gotos[n], logdir, n)
         try:
-            return run_one(scratch, n, goto, inst.unwind, t, logdir)
+            return run_one(scratch, n, goto, inst.unwind, t, logdir,
+                           extra_cbmc=unwindset_args(goto, getattr(inst, "unwind_rules", None)))
         finally:
             try:
                 os.remove(goto)
@@ -334,6 +358,8 @@ def run_kani(scratch, package, insts, jobs, timeout_s, small=True, extra_cfg=(),
         for r in results.values():
             if r.status in ("error", "missing"):
                 r.note = "cbmc killed by the memory watchdog (> %d GB)" % mem_cap_gb
+    for r in results.values():
+        r.symtab = gotos.get(r.name)
     return results, time.time() - t0, logdir
 
 
@@ -344,24 +370,69 @@ class BuildError(Exception):
 # ---------------------------------------------------------------------------------------------
 # counterexample extraction + native replay
 # ---------------------------------------------------------------------------------------------
-def concrete_playback(scratch, package, name, small=True, extra_cfg=(), extra_args=(), timeout_s=1800):
-    """Re-run one failing harness with concrete playback and return the list of byte vectors."""
-    args = ["cargo", "kani", "-p", package, "--harness", name, "-Z", "stubbing", "-Z", "concrete-playback",
-            "--concrete-playback=print"] + list(extra_args)
-    try:
-        out = subprocess.run(args, cwd=scratch.repo, env=scratch.env(small, extra_cfg, kani=True), capture_output=True,
-                             text=True, timeout=timeout_s).stdout
-    except subprocess.TimeoutExpired:
-        return None
+WIDTH = {"u8": 1, "bool": 1, "u16": 2, "u32": 4, "usize": 8, "u64": 8}
+
+
+def parse_trace_tape(text):
+    """The ordered list of values drawn through /verif/harness/*/sym.rs in a CBMC plain-text trace.
+    Every draw is a local named draw_<type> inside a function of the `sym` module."""
+    tape = []
+    cur_fn = None
+    for line in text.splitlines():
+        if line.startswith("State "):
+            m = re.search(r" function (\S+)", line)
+            cur_fn = m.group(1) if m else None
+            continue
+        m = re.match(r"^\s+draw_(\w+)=(.*)$", line)
+        if not m or not cur_fn or "::sym::" not in cur_fn:
+            continue
+        ty, rest = m.group(1), m.group(2).strip()
+        if ty == "bytes":
+            mm = re.match(r"^\{([^}]*)\}", rest)
+            if not mm:
+                continue
+            vals = [int(re.sub(r"[^0-9-]", "", x) or "0") & 0xFF for x in mm.group(1).split(",") if x.strip()]
+            tape.append(vals)
+            continue
+        w = WIDTH.get(ty)
+        if w is None:
+            continue
+        mb = re.search(r"\(([01 ]+)\)\s*$", rest)
+        if mb:
+            v = int(mb.group(1).replace(" ", ""), 2)
+        elif rest.startswith("TRUE"):
+            v = 1
+        elif rest.startswith("FALSE"):
+            v = 0
+        else:
+            v = int(re.sub(r"[^0-9-]", "", rest.split()[0]) or "0")
+        tape.append(list((v & ((1 << (8 * w)) - 1)).to_bytes(w, "little")))
+    return tape
+
+
+def extract_tapes(scratch, symtab, name, unwind, prop_ids, logdir, timeout_s=1200, extra_cbmc=(), unwind_rules=None):
+    """One CBMC query per failed property (--property, with --trace): the satisfying assignment is the
+    counterexample; its draws, in order, are the replay tape."""
+    goto = link_and_instrument(symtab, logdir, name + ".cex")
     tapes = []
-    # the printed unit test contains: let concrete_vals: Vec<Vec<u8>> = vec![ // comment \n vec![..], ... ];
-    for m in re.finditer(r"let concrete_vals: Vec<Vec<u8>> = vec!\[(.*?)\];\s*kani::concrete_playback_run", out, re.S):
-        body = m.group(1)
-        tape = []
-        for v in re.finditer(r"vec!\[([0-9,\s]*)\]", body):
-            nums = [int(x) for x in v.group(1).replace("\n", " ").split(",") if x.strip()]
-            tape.append(nums)
-        tapes.append(tape)
+    extra_cbmc = list(extra_cbmc) + unwindset_args(goto, unwind_rules)
+    try:
+        for pid in prop_ids[:3]:
+            args = ["cbmc"] + CBMC_FLAGS + ["--unwind", str(unwind), "--trace", "--property", pid] + list(extra_cbmc) + [goto]
+            try:
+                out = subprocess.run(args, capture_output=True, text=True, timeout=timeout_s).stdout
+            except subprocess.TimeoutExpired:
+                continue
+            if "VERIFICATION FAILED" not in out:
+                continue
+            t = parse_trace_tape(out)
+            if t and t not in tapes:
+                tapes.append(t)
+    finally:
+        try:
+            os.remove(goto)
+        except OSError:
+            pass
     return tapes
 
 
